@@ -4,7 +4,8 @@ import CattrsModel.Lemmas.Encoding
 # C06 core, unstructuring: BaseConverter's encoding by RUN-TIME class (`unAny`) coincides, up to `normSeq`
 (tuples and deques as lists), with Converter's encoding by DECLARED type (`un`) on well-typed values
 -/
-namespace CattrsModel
+namespace CattrsModel.GenInterp
+open CattrsModel
 variable (w : World)
 
 /-! ### `normSeq` basics -/
@@ -48,11 +49,11 @@ theorem normSeqKV_mkDict (kvs : List (Obj × Obj)) : normSeqKV (mkDict kvs) = mk
 theorem unAny_leaf (c : Cfg) {x : Obj} (h : x.isLeafB = true) : unAny w c x = x := by
   cases x <;> simp_all [Obj.isLeafB, unAny]
 
-theorem leaf_scalar {x : Obj} (h : x.isLeafB = true) : x.isScalar = true := by
-  cases x <;> simp_all [Obj.isLeafB, Obj.isScalar]
+theorem leaf_scalar {x : Obj} (h : x.isLeafB = true) : (isScalar x) = true := by
+  cases x <;> simp_all [Obj.isLeafB, isScalar]
 
-theorem unAny_scalar (c1 c2 : Cfg) {x : Obj} (h : x.isScalar = true) : unAny w c1 x = unAny w c2 x := by
-  cases x <;> simp_all [Obj.isScalar, unAny]
+theorem unAny_scalar (c1 c2 : Cfg) {x : Obj} (h : (isScalar x) = true) : unAny w c1 x = unAny w c2 x := by
+  cases x <;> simp_all [isScalar, unAny]
 
 theorem un_lit (c : Cfg) (vs : List Obj) (x : Obj) : un w c (.lit vs) x = x := by cases x <;> simp [un]
 
@@ -60,7 +61,7 @@ theorem wellTyped_opt_ne {t : Ty} {x : Obj} (hx : x ≠ .none) : wellTyped w (.o
   cases x <;> simp_all [wellTyped]
 
 theorem un_scalar (cG cB : Cfg) (hG : cG.gen = true) :
-    ∀ (m : Nat) (t : Ty) (x : Obj), sizeOf t ≤ m → x.isScalar = true → t.supU false = true →
+    ∀ (m : Nat) (t : Ty) (x : Obj), sizeOf t ≤ m → (isScalar x) = true → t.supU false = true →
       wellTyped w t x = true → un w cG t x = unAny w cB x := by
   intro m
   induction m with
@@ -79,11 +80,11 @@ theorem un_scalar (cG cB : Cfg) (hG : cG.gen = true) :
       rw [un_lit]
       have hl : x.isLeafB = true := memPy_leaf (by simpa [Ty.supU] using hs) (by simpa [wellTyped] using hwt)
       rw [unAny_leaf w cB hl]
-    | coll k t' => cases x <;> simp_all [wellTyped, Obj.isScalar]
-    | tupleHet ts => cases x <;> simp_all [wellTyped, Obj.isScalar]
-    | map k kt vt => cases x <;> simp_all [wellTyped, Obj.isScalar]
-    | cls c => cases x <;> simp_all [wellTyped, Obj.isScalar]
-    | td c => cases x <;> simp_all [wellTyped, Obj.isScalar]
+    | coll k t' => cases x <;> simp_all [wellTyped, isScalar]
+    | tupleHet ts => cases x <;> simp_all [wellTyped, isScalar]
+    | map k kt vt => cases x <;> simp_all [wellTyped, isScalar]
+    | cls c => cases x <;> simp_all [wellTyped, isScalar]
+    | td c => cases x <;> simp_all [wellTyped, isScalar]
     | opt t' =>
       have hs' : t'.supU false = true := by simpa [Ty.supU] using hs
       have hsz : sizeOf t' ≤ m := by simp at ht; omega
@@ -149,22 +150,22 @@ theorem normKV_anyKV_anyKV (cB cG : Cfg) : ∀ (kvs : List (Obj × Obj)),
       rw [unAnyKV, unAnyKV, normSeqKV, normSeqKV, h1.1, h1.2,
         normKV_anyKV_anyKV cB cG rest (fun q hq => h q (by simp [hq]))]
 
-theorem scalarKeysL_iff (xs : List Obj) : Obj.scalarKeysL xs = true ↔ ∀ x ∈ xs, x.scalarKeys = true := by
+theorem scalarKeysL_iff (xs : List Obj) : scalarKeysL xs = true ↔ ∀ x ∈ xs, (scalarKeys x) = true := by
   induction xs with
-  | nil => simp [Obj.scalarKeysL]
-  | cons x xs ih => simp [Obj.scalarKeysL, ih]
+  | nil => simp [scalarKeysL]
+  | cons x xs ih => simp [scalarKeysL, ih]
 
 theorem scalarKeysKV_iff (kvs : List (Obj × Obj)) :
-    Obj.scalarKeysKV kvs = true ↔ ∀ p ∈ kvs, p.1.isScalar = true ∧ p.2.scalarKeys = true := by
+    scalarKeysKV kvs = true ↔ ∀ p ∈ kvs, (isScalar p.1) = true ∧ (scalarKeys p.2) = true := by
   induction kvs with
-  | nil => simp [Obj.scalarKeysKV]
-  | cons p rest ih => obtain ⟨a, b⟩ := p; simp [Obj.scalarKeysKV, ih, and_assoc]
+  | nil => simp [scalarKeysKV]
+  | cons p rest ih => obtain ⟨a, b⟩ := p; simp [scalarKeysKV, ih, and_assoc]
 
 theorem scalarKeysF_iff (fs : List (String × Obj)) :
-    Obj.scalarKeysF fs = true ↔ ∀ p ∈ fs, p.2.scalarKeys = true := by
+    scalarKeysF fs = true ↔ ∀ p ∈ fs, (scalarKeys p.2) = true := by
   induction fs with
-  | nil => simp [Obj.scalarKeysF]
-  | cons p rest ih => obtain ⟨a, b⟩ := p; simp [Obj.scalarKeysF, ih]
+  | nil => simp [scalarKeysF]
+  | cons p rest ih => obtain ⟨a, b⟩ := p; simp [scalarKeysF, ih]
 
 /-- dict strategy: both engines emit every field (no `init=False` field, or the tuple strategy is irrelevant here) -/
 theorem normKV_unFields (cB cG : Cfg) : ∀ (fds : List Field) (fs : List (String × Obj)),
@@ -217,4 +218,4 @@ theorem unAnyL_leaves (c : Cfg) : ∀ (xs : List Obj), (∀ x ∈ xs, x.isLeafB 
   | x :: xs, h => by
       rw [unAnyL, unAny_leaf w c (h x (by simp)), unAnyL_leaves c xs (fun y hy => h y (by simp [hy]))]
 
-end CattrsModel
+end CattrsModel.GenInterp
